@@ -1021,6 +1021,24 @@ Proof.
   intros. unfold dctx_dec_oneshot_gen. destruct (dd_get _). destruct (negb _); [cbn [fst]; apply dsame_dict_stage|].
   destruct (dd_oneshot_frames _ _ _ _ _). cbn [fst]. apply dsame_dict_stage.
 Qed.
+Lemma dsame_dec_stream_disp : forall st d f, dsame d (fst (dctx_dec_stream_disp st d f)).
+Proof.
+  intros. unfold dctx_dec_stream_disp. destruct (_ && _); [|apply dsame_dec_stream].
+  unfold dctx_dec_stream_once. cbn [fst]. apply dsame_dict_stage.
+Qed.
+Lemma stream_disp_not_once : forall st d f, dd_uses (dd_fx_pre st d (frame_fid f)) <> 1 -> dctx_dec_stream_disp st d f = dctx_dec_stream_gen st d f.
+Proof.
+  intros st d f H. unfold dctx_dec_stream_disp. destruct (Z.eqb_spec (dd_uses (dd_fx_pre st d (frame_fid f))) 1); [contradiction|].
+  rewrite andb_false_r. reflexivity.
+Qed.
+Lemma dsame_dec_oneshot_disp : forall st d fs, dsame d (fst (dctx_dec_oneshot_disp st d fs)).
+Proof.
+  intros. unfold dctx_dec_oneshot_disp. destruct (_ =? 1); [|apply dsame_dec_oneshot].
+  unfold dctx_dec_oneshot_once. destruct (negb _); [cbn [fst]; apply dsame_dict_stage|].
+  destruct (dd_oneshot_frames _ _ _ _ _). cbn [fst]. apply dsame_dict_stage.
+Qed.
+Lemma oneshot_disp_not_once : forall st d fs, dd_uses (d_dict d) <> 1 -> dctx_dec_oneshot_disp st d fs = dctx_dec_oneshot_gen st d fs.
+Proof. intros st d fs H. unfold dctx_dec_oneshot_disp. destruct (Z.eqb_spec (dd_uses (d_dict d)) 1); [contradiction | reflexivity]. Qed.
 Lemma dsame_dec_using : forall st d k f, dsame d (fst (dctx_dec_using_gen st d k f)).
 Proof.
   intros. unfold dctx_dec_using_gen. destruct (negb _); [cbn [fst]; apply dsame_dict_stage|].
@@ -1064,9 +1082,9 @@ Proof.
     eapply dctx_ok_same; [apply dsame_refprefix | apply get_d_ok, Hw].
   - eapply dctx_ok_same; [apply dsame_fx | apply get_d_ok, Hw].
   - replace d with (fst (dctx_dec_stream (get_d w o) f)) by (rewrite E; reflexivity).
-    eapply dctx_ok_same; [apply dsame_dec_stream | apply get_d_ok, Hw].
+    eapply dctx_ok_same; [apply dsame_dec_stream_disp | apply get_d_ok, Hw].
   - replace d with (fst (dctx_dec_oneshot (get_d w o) fs)) by (rewrite E; reflexivity).
-    eapply dctx_ok_same; [apply dsame_dec_oneshot | apply get_d_ok, Hw].
+    eapply dctx_ok_same; [apply dsame_dec_oneshot_disp | apply get_d_ok, Hw].
   - replace d with (fst (dctx_dec_using (get_d w o) k f)) by (rewrite E; reflexivity).
     eapply dctx_ok_same; [apply dsame_dec_using | apply get_d_ok, Hw].
   - replace d with (fst (dctx_dec_raw (get_d w o) k f)) by (rewrite E; reflexivity).
@@ -1128,8 +1146,8 @@ Proof.
   - replace d with (fst (dctx_load (get_d w o0) k)) by (rewrite E; reflexivity). apply dsame_dparams, dsame_load.
   - replace d with (fst (dctx_refprefix (get_d w o0) k)) by (rewrite E; reflexivity). apply dsame_dparams, dsame_refprefix.
   - apply dsame_dparams. unfold dctx_fx. apply dsame_fx.
-  - replace d with (fst (dctx_dec_stream (get_d w o0) f)) by (rewrite E; reflexivity). apply dsame_dparams, dsame_dec_stream.
-  - replace d with (fst (dctx_dec_oneshot (get_d w o0) fs)) by (rewrite E; reflexivity). apply dsame_dparams, dsame_dec_oneshot.
+  - replace d with (fst (dctx_dec_stream (get_d w o0) f)) by (rewrite E; reflexivity). apply dsame_dparams, dsame_dec_stream_disp.
+  - replace d with (fst (dctx_dec_oneshot (get_d w o0) fs)) by (rewrite E; reflexivity). apply dsame_dparams, dsame_dec_oneshot_disp.
   - replace d with (fst (dctx_dec_using (get_d w o0) k f)) by (rewrite E; reflexivity). apply dsame_dparams, dsame_dec_using.
   - replace d with (fst (dctx_dec_raw (get_d w o0) k f)) by (rewrite E; reflexivity). apply dsame_dparams, dsame_dec_raw.
 Qed.
